@@ -457,6 +457,12 @@ def step (s : DState) (line : String) : DState × String :=
       " cons=" ++ bit (consListB m.avps && m.length == 20 + lenList m.avps) ++ " small=" ++
       bit (decide (m.length < 16777216)))
   | ["dump"] => plain s s.ms.msg.dump
+  | ["vlen"] =>
+    -- what the value (`AvpValue::length()`) or AVP (`get_length()`, `get_padding()`) on top of the stack says about itself
+    plain s (match s.ms.stack with
+      | .val v :: _ => "val " ++ toString v.len
+      | .avp a :: _ => "avp " ++ toString a.len ++ " " ++ toString a.padding
+      | [] => "-")
   | ["rt"] =>
     let m := s.ms.msg
     let r := match m.enc.err with
